@@ -117,6 +117,23 @@ Definition hook (v : verdict) : hook_res :=
   | VPanic c => HookPanic c
   end.
 
+(* A stage is a CHAIN of plugins (pluginSingleContainer.plugins, in order).  The loops of
+   plugin.go call them one after the other and return at the FIRST one that does not return
+   OK (or panics): the later plugins are not called.  [stage_verdict] is what the chain as a
+   whole does; [f_verdict f s] of a frame built from chains is [stage_verdict (chain s)]. *)
+Fixpoint stage_verdict (l : list verdict) : verdict :=
+  match l with
+  | [] => VNil
+  | v :: r => match hook v with HookOk => stage_verdict r | _ => v end
+  end.
+
+(* NOT what the code does: every plugin runs and the last one's answer stands *)
+Fixpoint stage_verdict_last_wins (l : list verdict) (acc : verdict) : verdict :=
+  match l with
+  | [] => acc
+  | v :: r => stage_verdict_last_wins r v
+  end.
+
 (* ---- binding (runs inside ReadMessage, on the read goroutine) ---- *)
 Inductive bind_res :=
 | BindPanic                                   (* a hook panicked on the read goroutine *)
@@ -307,3 +324,9 @@ Definition count (p : action -> bool) (l : list action) : nat := length (filter 
 
 Definition reply_statuses (l : list action) : list ostatus :=
   flat_map (fun a => match a with Reply _ s => [s] | _ => [] end) l.
+
+(* a frame whose stage verdicts come from plugin chains *)
+Definition with_chains (f : frame) (ch : stage -> list verdict) : frame :=
+  mkFrame (f_seq f) (f_type f) (f_sm_empty f) (f_route f) (f_read f)
+          (fun s => stage_verdict (ch s)) (f_handler f) (f_w_ok f) (f_w_err1 f) (f_w_err2 f)
+          (f_ctx_expired f) (f_spawn_failed f) (f_goon f).
